@@ -250,6 +250,9 @@ class Table:
                     "weight": np.array([s[6] for s in self.segs], dtype=np.float64),
                 }
             )
+            if shifted and len(sdf):
+                # the segment table, too, as a filtered array has it: row labels 1..n (a longer table minus its first row)
+                sdf = pd.concat([sdf.iloc[:1], sdf], ignore_index=True).iloc[1:]
             self._frames = (bdf, sdf)
         return self._frames
 
